@@ -28,6 +28,7 @@ import (
 	"path/filepath"
 	"strconv"
 	"strings"
+	"sync"
 	"time"
 
 	"github.com/btcsuite/btcd/blockchain"
@@ -300,6 +301,11 @@ type resp struct {
 	tok  string
 }
 
+type progRec struct {
+	inv  wire.InvVect
+	prog []string
+}
+
 type disp struct {
 	cs      *neutrino.ChainService
 	resps   []resp
@@ -309,6 +315,15 @@ type disp struct {
 	nq      int
 	reqOK   bool
 	want    wire.InvVect
+
+	// concurrent callers (conc op): every Query call replays the same script;
+	// a call is held until all callers have issued theirs (or 60 ms have
+	// passed: a caller that waits for somebody else's download never does)
+	mu       sync.Mutex
+	barrierN int
+	arrived  int
+	progs    []progRec
+	quitOnce sync.Once
 }
 
 func (d *disp) Start() error { return nil }
@@ -316,38 +331,68 @@ func (d *disp) Stop() error  { return nil }
 
 func peerAddr(p int) string { return fmt.Sprintf("10.0.0.%d:8333", p) }
 
+func progTok(p query.Progress) string {
+	switch {
+	case p.Finished && p.Progressed:
+		return "f"
+	case !p.Finished && !p.Progressed:
+		return "n"
+	}
+	return "x"
+}
+
 func (d *disp) Query(reqs []*query.Request, _ ...query.QueryOption) chan error {
 	ch := make(chan error, 1)
+	d.mu.Lock()
 	d.nq++
-	d.reqOK = false
-	if len(reqs) == 1 {
-		if gd, ok := reqs[0].Req.(*wire.MsgGetData); ok && len(gd.InvList) == 1 && *gd.InvList[0] == d.want {
-			d.reqOK = true
+	conc := d.barrierN > 1
+	d.arrived++
+	d.mu.Unlock()
+	if conc {
+		deadline := time.Now().Add(60 * time.Millisecond)
+		for time.Now().Before(deadline) {
+			d.mu.Lock()
+			a := d.arrived
+			d.mu.Unlock()
+			if a >= d.barrierN {
+				break
+			}
+			time.Sleep(200 * time.Microsecond)
 		}
 	}
+	var inv wire.InvVect
+	ok := false
+	if len(reqs) == 1 {
+		if gd, isGD := reqs[0].Req.(*wire.MsgGetData); isGD && len(gd.InvList) == 1 {
+			inv = *gd.InvList[0]
+			ok = conc || inv == d.want
+		}
+	}
+	var prog []string
 	if len(reqs) >= 1 {
 		for _, r := range d.resps {
 			p := reqs[0].HandleResp(reqs[0].Req, r.msg, peerAddr(r.peer))
-			switch {
-			case p.Finished && p.Progressed:
-				d.prog = append(d.prog, "f")
-			case !p.Finished && !p.Progressed:
-				d.prog = append(d.prog, "n")
-			default:
-				d.prog = append(d.prog, "x")
-			}
+			prog = append(prog, progTok(p))
 			if p.Finished && !d.cont {
 				break
 			}
 		}
 	}
+	d.mu.Lock()
+	d.reqOK = ok
+	if conc {
+		d.progs = append(d.progs, progRec{inv, prog})
+	} else {
+		d.prog = prog
+	}
+	d.mu.Unlock()
 	switch d.verdict {
 	case "nil":
 		ch <- nil
 	case "err":
 		ch <- errScript
 	case "quit":
-		d.cs.VerifCloseQuit()
+		d.quitOnce.Do(d.cs.VerifCloseQuit)
 	}
 	return ch
 }
@@ -390,7 +435,11 @@ var caseNo int
 // memBan is a map-backed banman.Store (used only where fsync is expensive).
 type memBan struct{ m map[string]banman.Status }
 
+var banMu sync.Mutex // the handler may run on several callers' goroutines (conc op)
+
 func (b *memBan) BanIPNet(n *net.IPNet, r banman.Reason, d time.Duration) error {
+	banMu.Lock()
+	defer banMu.Unlock()
 	b.m[n.String()] = banman.Status{Banned: true, Reason: r, Expiration: time.Now().Add(d)}
 	return nil
 }
@@ -609,8 +658,10 @@ type recBan struct {
 func (b *recBan) BanIPNet(n *net.IPNet, r banman.Reason, d time.Duration) error {
 	err := b.Store.BanIPNet(n, r, d)
 	if err == nil {
+		banMu.Lock()
 		b.banned[n.String()] = true
 		b.reason[n.String()] = r
+		banMu.Unlock()
 	}
 	return err
 }
@@ -659,6 +710,92 @@ type callRes struct {
 	err error
 }
 
+func (w *world) classify(cr callRes, targetHash chainhash.Hash) string {
+	switch {
+	case cr.err == nil && cr.blk != nil:
+		mb := cr.blk.MsgBlock()
+		_, m, wt := w.preds(mb)
+		return fmt.Sprintf("ret:%d:%s%s%s", w.blockID(mb), b01(mb.Header.BlockHash() == targetHash), b01(m), b01(wt))
+	case cr.err == nil:
+		return "err:nilnil" // neither a block nor an error
+	case cr.err == errScript:
+		return "err:query"
+	case cr.err == neutrino.ErrShuttingDown:
+		return "err:quit"
+	case strings.HasPrefix(cr.err.Error(), "PANIC"):
+		return "PANIC"
+	case strings.Contains(cr.err.Error(), "couldn't get header"):
+		return "err:nohdr"
+	case strings.Contains(cr.err.Error(), "couldn't retrieve block"):
+		return "err:notfound"
+	}
+	return "err:other"
+}
+
+// conc runs len(targets) overlapping GetBlock calls (same script for every
+// download) and reports each caller's outcome.
+func (w *world) conc(t *tr.W, targets []int, enc int, cont bool, verdict string, resps []resp) string {
+	d := w.d
+	d.resps, d.cont, d.verdict, d.prog, d.nq = resps, cont, verdict, nil, 0
+	d.barrierN, d.arrived, d.progs = len(targets), 0, nil
+	defer func() { d.barrierN = 0 }()
+	it := wire.InvTypeWitnessBlock
+	var opts []neutrino.QueryOption
+	if enc == 1 {
+		it = wire.InvTypeBlock
+		opts = append(opts, neutrino.Encoding(wire.BaseEncoding))
+	}
+	chs := make([]chan callRes, len(targets))
+	for i, tg := range targets {
+		i, th := i, w.hdrs[tg-1].BlockHash()
+		chs[i] = make(chan callRes, 1)
+		go func() {
+			defer func() {
+				if e := recover(); e != nil {
+					chs[i] <- callRes{err: fmt.Errorf("PANIC %v", e)}
+				}
+			}()
+			b, err := w.cs.GetBlock(th, opts...)
+			chs[i] <- callRes{b, err}
+		}()
+	}
+	var results, progs []string
+	for i, tg := range targets {
+		th := w.hdrs[tg-1].BlockHash()
+		res := "HANG"
+		select {
+		case cr := <-chs[i]:
+			res = w.classify(cr, th)
+		case <-time.After(5 * time.Second):
+		}
+		results = append(results, res)
+		if strings.HasPrefix(res, "ret:") {
+			t.Hit("blk.conc.result.ret")
+		} else {
+			t.Hit("blk.conc.result." + res)
+		}
+	}
+	d.mu.Lock()
+	for _, tg := range targets {
+		inv := wire.InvVect{Type: it, Hash: w.hdrs[tg-1].BlockHash()}
+		pr := "-"
+		for _, rec := range d.progs {
+			if rec.inv == inv {
+				pr = strings.Join(rec.prog, ",")
+				if pr == "" {
+					pr = "."
+				}
+				break
+			}
+		}
+		progs = append(progs, pr)
+	}
+	nq := d.nq
+	d.mu.Unlock()
+	bans, cache := w.dump()
+	return fmt.Sprintf("[%s] q%d progs [%s] ban %s cache %s", strings.Join(results, " "), nq, strings.Join(progs, " "), bans, cache)
+}
+
 func (w *world) getBlock(t *tr.W, target int, targetHash chainhash.Hash, enc int, cont bool, verdict string, resps []resp) string {
 	d := w.d
 	d.resps, d.cont, d.verdict, d.prog, d.nq = resps, cont, verdict, nil, 0
@@ -682,26 +819,7 @@ func (w *world) getBlock(t *tr.W, target int, targetHash chainhash.Hash, enc int
 	var res string
 	select {
 	case cr := <-ch:
-		switch {
-		case cr.err == nil && cr.blk != nil:
-			mb := cr.blk.MsgBlock()
-			_, m, wt := w.preds(mb)
-			res = fmt.Sprintf("ret:%d:%s%s%s", w.blockID(mb), b01(mb.Header.BlockHash() == targetHash), b01(m), b01(wt))
-		case cr.err == nil:
-			res = "err:nilnil"
-		case cr.err == errScript:
-			res = "err:query"
-		case cr.err == neutrino.ErrShuttingDown:
-			res = "err:quit"
-		case strings.HasPrefix(cr.err.Error(), "PANIC"):
-			res = "PANIC"
-		case strings.Contains(cr.err.Error(), "couldn't get header"):
-			res = "err:nohdr"
-		case strings.Contains(cr.err.Error(), "couldn't retrieve block"):
-			res = "err:notfound"
-		default:
-			res = "err:other"
-		}
+		res = w.classify(cr, targetHash)
 	case <-time.After(5 * time.Second):
 		res = "HANG"
 	}
@@ -739,6 +857,7 @@ func runCase(t *tr.W, r *rand.Rand) {
 	}
 	t.Line("# heights %d..%d, block kinds: %s", w.lo+1, w.lo+w.n, strings.Join(kinds, " "))
 	nops := 3 + r.Intn(7)
+	quitUsed := false
 	for j := 0; j < nops; j++ {
 		target := w.lo + 1 + r.Intn(nblocks)
 		if r.Intn(3) > 0 {
@@ -783,10 +902,66 @@ func runCase(t *tr.W, r *rand.Rand) {
 		for i, rp := range resps {
 			toks[i] = rp.tok
 		}
+		quitUsed = quitUsed || verdict == "quit"
 		obs := w.getBlock(t, target, th, enc, cont, verdict, resps)
 		t.Op(fmt.Sprintf("getblock %d %d %d %s %s [%s]", target, known, enc, b01(cont), verdict, strings.Join(toks, " ")), obs)
 		if strings.HasPrefix(obs, "HANG") || strings.HasPrefix(obs, "PANIC") {
 			return
+		}
+	}
+	// Overlapping calls: 2-3 callers ask at the same time for a block that is not cached (the last one
+	// sometimes for another block); every download is answered with the same script and verdict.
+	if !quitUsed && r.Intn(3) == 0 {
+		enc := 0
+		if r.Intn(6) == 0 {
+			enc = 1
+		}
+		cached := map[int]bool{}
+		w.cache.RangeFILO(func(k wire.InvVect, v *neutrino.CacheableBlock) bool {
+			e := 0
+			if k.Type == wire.InvTypeBlock {
+				e = 1
+			}
+			if e == enc {
+				cached[w.hdrID(k.Hash)] = true
+			}
+			return true
+		})
+		var free []int
+		for h := w.lo + 1; h <= w.lo+nblocks; h++ {
+			if !cached[h] {
+				free = append(free, h)
+			}
+		}
+		if len(free) > 0 {
+			main := free[r.Intn(len(free))]
+			targets := []int{main, main}
+			if r.Intn(2) == 0 {
+				targets = append(targets, main)
+			}
+			if len(free) > 1 && r.Intn(3) == 0 {
+				targets[len(targets)-1] = free[r.Intn(len(free))]
+			}
+			cont := r.Intn(6) == 0
+			verdict := []string{"nil", "nil", "err", "err", "quit"}[r.Intn(5)]
+			var resps []resp
+			for n := r.Intn(6); n > 0; n-- {
+				resps = append(resps, w.mkResp(t, r, 1+r.Intn(4), main))
+			}
+			toks := make([]string, len(resps))
+			for i, rp := range resps {
+				toks[i] = rp.tok
+			}
+			var ts []string
+			for _, x := range targets {
+				ts = append(ts, strconv.Itoa(x))
+			}
+			t.Hit("blk.conc.verdict." + verdict)
+			obs := w.conc(t, targets, enc, cont, verdict, resps)
+			t.Op(fmt.Sprintf("conc %d %s %s [%s] [%s]", enc, b01(cont), verdict, strings.Join(ts, " "), strings.Join(toks, " ")), obs)
+			if strings.Contains(obs, "HANG") || strings.Contains(obs, "PANIC") {
+				return
+			}
 		}
 	}
 	// what the real (bbolt) ban store says at the end of the case
